@@ -177,8 +177,53 @@ def _native_span(model, obname):
     return {"confirmed": False, "tried": len(ints)}
 
 
+def _name_unit():
+    """visit_NameNode: the third link of the chain - a name visited while the flag is set has its entry marked, unconditionally"""
+    from dv.pyfe import POpt, PRef
+    fields = {"obj:MarkOverflowingArithmetic": {"might_overflow": "bool", "env": "ref:obj:Scope"},
+              "obj:NameNode": {"entry": "opt:obj:Entry", "name": "any"},
+              "obj:Entry": {"might_overflow": "bool"}}
+    LOOKUP = z3.Int("ghost.scope_lookup_result")           # what env.lookup(name) finds: NONE_ADDR or an entry
+    from dv.pyfe import NONE_ADDR
+    lookup = Callee("Scope.lookup", ["self", "name"], result_kind=lambda ex, e: POpt(LOOKUP == NONE_ADDR, PRef("obj:Entry", LOOKUP)))
+
+    def post(e):
+        own = e.h0.fld("entry", e.node)
+        entry = z3.If(own != NONE_ADDR, own, LOOKUP)
+        flag = e.h0.fld("might_overflow", e.self) != 0
+        return And(Implies(And(flag, entry != NONE_ADDR), e.h.fld("might_overflow", entry) != 0), e.result == e.node)
+    return PyUnit("TypeInference.MarkOverflowingArithmetic.visit_NameNode", {"C40": None}, FILE, "MarkOverflowingArithmetic.visit_NameNode",
+                  [("self", "ref:obj:MarkOverflowingArithmetic"), ("node", "ref:obj:NameNode")],
+                  requires=[("entries are objects (not None's address), the looked-up entry existed before", lambda e: And(LOOKUP >= -1, LOOKUP < z3.Int("H0.alloc")))],
+                  ensures=[("a name visited while might_overflow is set has its entry (its own, else the scope's) marked - whatever was visited before; the node is returned", post)],
+                  callees={"Scope.lookup": lookup},
+                  options={"fields": fields, "merge": False, "dynamic_classes": ()},
+                  native=_native_name, search=lambda seed, ob: _native_name({}, ob))
+
+
+def _native_name(model, obname):
+    """the chain observed from outside: a name used in overflowing arithmetic in an OUTER function after an inner function used the same name"""
+    import os
+    import subprocess
+    src = ("# cython: language_level=3, infer_types=True\n"
+           "def outer():\n    def inner():\n        v = 2147483647\n        return v + 1\n    r = inner()\n    v = 2147483647\n    return r, v + 1\n")
+    try:
+        ctext, cfile = cextract.compile_pyx(src, name="dvmarknames")
+    except Exception as ex:
+        return {"confirmed": False, "note": "compile failed: %r" % ex}
+    d = os.path.dirname(cfile)
+    p = subprocess.run(["clang", "-shared", "-fPIC", "-O0", "-w", "-I" + cextract.PY_INCLUDE, cfile, "-o", os.path.join(d, "dvmarknames.so")], capture_output=True, text=True)
+    if p.returncode != 0:
+        return {"confirmed": False, "note": "build failed " + p.stderr[-300:]}
+    r = subprocess.run(["/venv/bin/python", "-c", "import sys; sys.path.insert(0, %r); import dvmarknames as m; print(m.outer())" % d], capture_output=True, text=True, timeout=120)
+    out = r.stdout.strip()
+    return {"inputs": "v = 2147483647; v + 1 in an outer function after an inner function did the same with a local of the same name (infer_types=True)",
+            "actual": (out or r.stderr[-300:])[:300], "expected": "(2147483648, 2147483648)", "confirmed": out != "(2147483648, 2147483648)", "obligation": obname,
+            "how": "module compiled by the working-tree compiler; called natively"}
+
+
 def units(tier):
-    return [_binop_unit(), _span_unit()]
+    return [_binop_unit(), _span_unit(), _name_unit()]
 
 
 REGIONS = {}
